@@ -16,8 +16,11 @@ import (
 	"log/slog"
 	"os"
 	"reflect"
+	"runtime"
 	"strconv"
 	"strings"
+	"sync"
+	"sync/atomic"
 	"time"
 
 	"github.com/KafScale/platform/pkg/broker"
@@ -240,9 +243,150 @@ func verifC11Run(key, ver int16, corr int32, seed uint64) (out string) {
 	return fmt.Sprintf("reply hdr=%d corr=%d | path=%s decode=%s ver=%s len=%d", hdr, gotCorr, rep.path, dec, usedVer, len(p))
 }
 
+// verifC11Conc: GOMAXPROCS goroutines send valid generated requests of read-mostly APIs, at versions on both
+// sides of the flexible boundaries, through ParseRequest and ONE shared handler (as connections of a real
+// broker do); every reply must decode exactly at its own request's version and carry its own correlation id.
+func verifC11Conc(seed uint64, ms int) string {
+	type fr struct {
+		key, ver int16
+		corr     int32
+		payload  []byte
+	}
+	rng := &protocol.VerifRng{S: seed}
+	var frames []fr
+	for _, e := range generateApiVersions() {
+		switch e.ApiKey {
+		case protocol.APIKeyApiVersion, protocol.APIKeyMetadata, protocol.APIKeyFindCoordinator, protocol.APIKeyHeartbeat,
+			protocol.APIKeyListGroups, protocol.APIKeyDescribeGroups, protocol.APIKeyOffsetFetch, protocol.APIKeyDescribeConfigs,
+			protocol.APIKeyListOffsets, protocol.APIKeyOffsetForLeaderEpoch:
+		default:
+			continue
+		}
+		probe := kmsg.RequestForKey(e.ApiKey)
+		for v := int16(0); v <= probe.MaxVersion() && v <= e.MaxVersion+1; v++ {
+			if e.ApiKey == protocol.APIKeyListOffsets && v > e.MaxVersion {
+				continue
+			}
+			for rep := 0; rep < 2; rep++ {
+				req := protocol.VerifFillRequest(e.ApiKey, v, rng)
+				verifC11Fixup(req, rng)
+				if m, ok := req.(*kmsg.MetadataRequest); ok {
+					m.Topics = nil // all topics; no auto-creation
+				}
+				if l, ok := req.(*kmsg.ListOffsetsRequest); ok {
+					for i := range l.Topics {
+						for j := range l.Topics[i].Partitions {
+							l.Topics[i].Partitions[j].Timestamp = -1
+						}
+					}
+				}
+				corr := int32(rng.Next())
+				frame := kmsg.NewRequestFormatter(kmsg.FormatterClientID("verif-c11c")).AppendRequest(nil, req, corr)
+				frames = append(frames, fr{e.ApiKey, v, corr, frame[4:]})
+			}
+		}
+	}
+	byKey := map[int16][]fr{}
+	var keysInOrder []int16
+	for _, f := range frames {
+		if _, ok := byKey[f.key]; !ok {
+			keysInOrder = append(keysInOrder, f.key)
+		}
+		byKey[f.key] = append(byKey[f.key], f)
+	}
+	start := time.Now()
+	h := verifC11Handler()
+	var stop atomic.Bool
+	var done atomic.Int64
+	var mu sync.Mutex
+	first := ""
+	report := func(what string, f fr) {
+		mu.Lock()
+		if first == "" {
+			first = fmt.Sprintf("conc mismatch %s key=%d ver=%d corr=%d", what, f.key, f.ver, f.corr)
+		}
+		mu.Unlock()
+		stop.Store(true)
+	}
+	deadline := time.Now().Add(time.Duration(ms) * time.Millisecond)
+	n := runtime.GOMAXPROCS(0)
+	if n < 2 {
+		n = 2
+	}
+	var wg sync.WaitGroup
+	for g := 0; g < n; g++ {
+		wg.Add(1)
+		go func(g int) {
+			defer wg.Done()
+			defer func() {
+				if r := recover(); r != nil {
+					report(fmt.Sprintf("panic:%v", r), fr{})
+				}
+			}()
+			local := &protocol.VerifRng{S: seed + uint64(g)*104729}
+			for i := 0; !stop.Load(); i++ {
+				if i%64 == 0 && time.Now().After(deadline) {
+					return
+				}
+				// everybody works on the same API key for a while (rotating), at random versions of it
+				cur := keysInOrder[int(time.Since(start)/(50*time.Millisecond))%len(keysInOrder)]
+				fs := byKey[cur]
+				f := fs[local.Below(len(fs))]
+				header, parsed, err := protocol.ParseRequest(f.payload)
+				if err != nil {
+					report("request-parse-error", f)
+					return
+				}
+				p, err := h.Handle(context.Background(), header, parsed)
+				if err != nil {
+					p = broker.VerifBuildErrorResponse(header)
+				}
+				if len(p) < 4 {
+					report("no-reply", f)
+					return
+				}
+				if int32(binary.BigEndian.Uint32(p[:4])) != f.corr {
+					report("wrong-correlation-id", f)
+					return
+				}
+				exact := func(off int, v int16) bool {
+					resp := kmsg.ResponseForKey(f.key)
+					resp.SetVersion(v)
+					if len(p) < off || resp.ReadFrom(p[off:]) != nil {
+						return false
+					}
+					return bytes.Equal(resp.AppendTo(nil), p[off:])
+				}
+				probe := kmsg.ResponseForKey(f.key)
+				probe.SetVersion(f.ver)
+				off := 4
+				if probe.IsFlexible() && f.key != protocol.APIKeyApiVersion {
+					off = 5
+				}
+				if !exact(off, f.ver) && !(f.key == protocol.APIKeyApiVersion && f.ver > 4 && exact(4, 0)) {
+					report("reply-not-decodable-at-request-version", f)
+					return
+				}
+				done.Add(1)
+			}
+		}(g)
+	}
+	wg.Wait()
+	if first != "" {
+		return first
+	}
+	return fmt.Sprintf("conc ok requests=%d goroutines=%d frames=%d", done.Load(), n, len(frames))
+}
+
 func init() {
 	if os.Getenv("VERIF_HARNESS") != "C11" {
 		return
+	}
+	if len(os.Args) > 3 && os.Args[1] == "conc" {
+		seed, _ := strconv.ParseUint(os.Args[2], 10, 64)
+		ms, _ := strconv.Atoi(os.Args[3])
+		fmt.Println(verifC11Conc(seed, ms))
+		os.Exit(0)
 	}
 	w := bufio.NewWriter(os.Stdout)
 	if len(os.Args) > 1 && os.Args[1] == "tables" {
